@@ -1,3 +1,5 @@
 @include prelude_base.rs
 @include u1_semtype.vs
 @include u2_vfile.vs
+@include prelude_rec.rs
+@include u4_val.vs
